@@ -20,6 +20,24 @@ CHECKS = {
         "bound_text": "expression families (<= budget operator/wrapper nodes, sandwiches, chains, e-op-e, all operator trees with <= treeops operators, if/else) in 16 embeddings; statement trees of depth <= 1 (quick) / 2 (thorough) with output in 8 body positions; loops <= 2 iterations; operand kinds nil/int/bool (+float in thorough) symbolic, literal values symbolic",
         "assumptions": ["reference evaluator (harness/internal/vsess/ref.go) is the Readme's semantics; left open by the language description and therefore not followed: shift counts outside 0..63, >> of negative ints, s[i] for non-ASCII bytes, lock-step loops over generators with side effects, read/exit"],
     },
+    "C02": {
+        "runs": [
+            {"harness": ["internal/vsess.VerifC02Loops"], "pkgs": ["./internal/vsess"], "fuel": 8000000,
+             "params_quick": {"niter": 14, "niter2": 3, "maxdepth": 4}, "params_thorough": {"niter": 14, "niter2": 14, "maxdepth": 7},
+             "covers": {"VerifC02Loops": ["done"]}},
+        ],
+        "bound_text": "14 iterator expressions (traced counters, conditional/recursive/nested-call/closure generators, map/filter/chain compositions to depth 2, built-ins, non-generators) x 9 consumers (write each, collect, nested cross product, lock-step over 5x5 pure iterators, return from body, loop at recursion depth <= 3 (thorough 6), loops in sequence, loop value, naked yield); yields per generator <= 3; yielded values symbolic",
+        "assumptions": ["lock-step loops only over generators without output (the reference runs them one after the other)"],
+    },
+    "C03": {
+        "runs": [
+            {"harness": ["internal/vsess.VerifC03Pure"], "pkgs": ["./internal/vsess"], "fuel": 8000000,
+             "params_quick": {"dive": 140, "maxcalldepth": 3}, "params_thorough": {"dive": 300, "maxcalldepth": 130},
+             "covers": {"VerifC03Pure": ["done"]}},
+        ],
+        "bound_text": "6 side-effect-free functions (arithmetic, loop, closure created and called, closure observing a later update, array building loop, possibly-unassigned local) x 6 histories (none, recursion 140 (thorough 300) deep, loops recycling contexts at two levels, failed statement, plain calls, abandoned generator) x 6 placements (again, twice in one array, loop body, generator, call depth <= 2 (thorough <= 129), while body); arguments and constants symbolic",
+        "assumptions": [],
+    },
     "C04": {
         "runs": [
             {"harness": ["internal/vsess.VerifC04Shadow"], "pkgs": ["./internal/vsess"], "fuel": 6000000,
@@ -139,6 +157,8 @@ CHECKS = {
 }
 
 LEVEL_TEXT = {
+    "C02": "Differential symbolic execution against the reference evaluator (generators as internal iteration): generator definitions, compositions and consumers are enumerated by forking, yielded values are symbolic, generators write trace marks so that the compared output fixes the interleaving of generator and loop body; loop values, collected values and the session state afterwards are compared for all values.",
+    "C03": "Each pure function is called first in a fresh session, then after a solver-chosen history and in a solver-chosen dynamic placement; every call is compared with the reference evaluator's result for symbolic arguments, so a result that depends on what ran before (stack growth, recycled contexts, stale frames) is a failed solver-decided assertion.",
     "C04": "Differential symbolic execution against the reference evaluator on generated programs whose variable names are drawn from a small pool so that globals, parameters, locals, loop variables and captured variables collide in every combination; after every call each global is read back on both sides and every returned closure is called after other calls have reused the stack. Literal values are symbolic, so agreement is a solver verdict over all values.",
     "C01": "Differential symbolic execution: the real pipeline and a reference evaluator written from the language description are both interpreted from SSA on the same generated tree with the same symbolic literals and preset globals; equality of error class, result value and written output is a solver-decided assertion for all values on every explored shape (promotion, overflow, zero divisors, index bounds, nil/type errors are models the solver must exclude).",
     "C12": "Implementation against implementation: two spellings of the same computation are compiled and run symbolically in two sessions sharing the same symbolic global values; equality of error class and of the result value for all operand kinds/values is a solver-decided assertion per explored shape. Conditions of if/while of symbolic kind must be errors exactly when the kind is not bool.",
